@@ -120,7 +120,7 @@ CLAIMS = {
         "exactly these rules, no error, with the parser's own fuel; round trip R10), C17_illegal_start_rejected, C17_leading_whitespace, and the converse C17_accepted_rules_wellformed / C17_parser_range (whatever is accepted is a well-formed "
         "document: condition, at least one action, grouping by prec) — the parser's range is exactly the well-formed documents. Proved at character level: C17_text_to_rules (for every well-formed document with writable names and literals "
         "the lexer model reads the canonical text — each token in canonical spelling followed by one space — into the document's tokens without error, maximal munch "
-        "decided rule by rule, and the parser with the real literal decoder reads them back as exactly the document), C17_lex_render. Not proved: other spacings and "
+        "decided rule by rule, and the parser with the real literal decoder reads them back as exactly the document), C17_lex_render, C17_grammatical_decoder_free (grammaticality does not depend on the literal decoder), C17_front_accepts_canonical and C17_canonical_text_builds (building the canonical text of a well-formed document with new distinct names reports no error and appends exactly its rules), C17_lexable_is_valid. Not proved: other spacings and "
         "comments between tokens, float and non-decimal literal notations (sampled by the correspondence per token pair). Fixes 3cd0826 (a "
         "rejected resource adds no rule) and 2e94e10 (salience out of range is an error, not a panic) in /repo.",
         tech="Lean 4 executable front-end model + theorems on the builder's effect + regenerated lexer facts (decide ties) + mutation-based differential correspondence", ref="5.C17"),
